@@ -75,6 +75,16 @@ def _is_view(h, data, buf, lo, n):
     return len(data) == n and bytes(data) == bytes(buf[lo:lo + n]) and lo + n <= len(buf)
 
 
+def _payload(h, name="payload", min_len=0, max_len=65533):
+    """An arbitrary payload of arbitrary (symbolic) length and its length, which is also the announced
+    message_length: the receive path reads exactly message_length payload bytes."""
+    buf = h.abytes(name, min_len=min_len, max_len=max_len)
+    n = h.length(buf)
+    if h.symbolic:
+        h.path.inputs[name + "_length"] = n  # named so that counter-models are minimised in the length
+    return buf, n
+
+
 def _str_bytes(h, s):
     """UTF-8 bytes of a decoded str: a list (concrete length) or, for a symbolic-length str, its view."""
     if h.symbolic:
@@ -137,9 +147,7 @@ def xff10_roundtrip(h):
       assumptions=["len(payload) == sub-header.message_length (what the receive path hands to a sub-decoder)"])
 def xff10_decode(h):
     """Arbitrary payload of arbitrary length (unbounded: symbolic-length buffer)."""
-    buf = h.abytes("payload")
-    mlen = h.int("message_length", 0, 65533)
-    h.assume(h.length(buf) == mlen, "the receive path reads exactly message_length payload bytes")
+    buf, mlen = _payload(h)
     dec = h.new(XERR + ":AcErrorInformationDecoder")
     r = h.method(dec, "decode", buf, at5_ext_subheader(h, ID_ERR, mlen))
     h.oblige("returns or rejects", only_rejects(h, r))
@@ -419,9 +427,7 @@ def xff11_decode(h):
     """Arbitrary payload, unbounded in length and record count: loop contract on the real decode loop.
     The decoder walks the payload in fixed 26-byte steps; the vendor reading walks it by the announced
     following data length - they agree iff every record announces 24 (obligations of check_ability_stride)."""
-    buf = h.abytes("payload")
-    mlen = h.int("message_length", 0, 65533)
-    h.assume(h.length(buf) == mlen, "the receive path reads exactly message_length payload bytes")
+    buf, mlen = _payload(h)
     dec = h.new(XABL + ":AcAbilityDecoder")
 
     def per_record(rec, b, k):
@@ -466,10 +472,8 @@ def xff11_decode_longer(h):
     """C17: "status records longer than the known layout are decoded from their known prefix".  One AC
     whose record announces E >= 1 more following bytes than the 24 known today (a newer console); every E
     the length byte can express (unbounded: symbolic E, loop contract on the decode loop)."""
-    extra = h.int("extra_bytes", 1, 255 - ABILITY_KNOWN_FOLLOWING)
-    mlen = ABILITY_RECORD + extra
-    buf = h.abytes("payload")
-    h.assume(h.length(buf) == mlen, "the receive path reads exactly message_length payload bytes")
+    buf, mlen = _payload(h, min_len=ABILITY_RECORD + 1, max_len=2 + 255)
+    extra = mlen - ABILITY_RECORD
     h.assume(_byte_at(h, buf, 1) == ABILITY_KNOWN_FOLLOWING + extra, "the one record announces its real length")
     dec = h.new(XABL + ":AcAbilityDecoder")
 
@@ -700,3 +704,284 @@ def xff49_decode(h):
     h.oblige("duration = byte3 hours + byte4 minutes",
              h.eq(h.attr(m, "duration"), h.new("datetime:timedelta", hours=b[2], minutes=b[3])))
     h.oblige("remaining = what follows the 4 bytes", h.length(h.attr(r.value, "remaining")) == L - 4)
+
+
+# ================================ 0x1F extended message wrapper ==================================
+# Vendor (page 12): "The first two bytes of the data are used to specify the specific command" (0xFF 0x11 ...).
+# Verified parametrically in the sub-codec: the sub-encoder / sub-decoder registered for a sub-message id is a
+# stub whose behaviour is only given by the contract that the at5.xFFnn.roundtrip sets establish for every
+# real sub-codec (size() = s, encode(sub_header(id, s), m) = exactly s bytes, decode(those bytes,
+# sub_header(id, s)) = (m, nothing left)).  Wrapper obligations + that contract give C03 for the nested
+# message: outer size = 2 + s = bytes produced, and decode(encode(m)) = m.
+
+WRAP_FNS = [X1F + ":ExtendedMessageEncoder.size", X1F + ":ExtendedMessageEncoder.encode",
+            X1F + ":ExtendedMessageEncoder._sub_message_encoder", X1F + ":ExtendedMessageDecoder.decode",
+            X1F + ":ExtendedMessageDecoder._sub_message_decoder", X1F + ":UnsupportedExtendedDecoder.decode"]
+
+
+class _Stub:
+    """An object with the given methods, callable from the interpreted code (symbolic reading) and from
+    CPython (native reading)."""
+
+    def __init__(self, **methods):
+        self._methods = methods
+        self.__dict__.update(methods)
+
+    def py_getattr(self, it, name):
+        from pyvc.values import Builtin
+        if name in self._methods:
+            return Builtin("stub." + name, self._methods[name])
+        raise it.exc("AttributeError", name)
+
+
+def _first_bytes(h, out, n):
+    """The first n bytes of an encoder result that may be a concatenation with a symbolic-length part."""
+    if h.symbolic:
+        from pyvc.pybuiltins import Rope
+        from pyvc.values import BytesVal
+        head = out.parts[0] if isinstance(out, Rope) else out
+        if not isinstance(head, BytesVal) or len(head.items) < n:
+            return None
+        return head.items[:n]
+    return list(out[:n])
+
+
+def _tail_is(h, out, n, tail):
+    """`out` is n bytes followed by exactly the buffer `tail`."""
+    if h.symbolic:
+        from pyvc.pybuiltins import Rope
+        from pyvc.values import BytesVal
+        if isinstance(out, Rope):
+            return len(out.parts) == 2 and isinstance(out.parts[0], BytesVal) and len(out.parts[0].items) == n and out.parts[1] is tail
+        if isinstance(out, BytesVal):  # the sub-payload was empty / concrete
+            return h.eq(BytesVal(out.items[n:]), tail) if len(out.items) >= n else False
+        return False
+    return bytes(out[n:]) == bytes(tail)
+
+
+def _sub_message(h, sub_id):
+    """Any message object whose message_id is sub_id (UnsupportedMessage.message_id returns its unsupported_id)."""
+    return h.new(COMMS + ":UnsupportedMessage", unsupported_id=sub_id, raw_data=h.mkbytes([]))
+
+
+@oset("at5.x1F.encode-registered", ["C03"], WRAP_FNS[:3],
+      assumptions=["sub-encoder contract: size(m) = s >= 0, encode(sub_header, m) = exactly s bytes (established per sub-codec "
+                   "by the at5.xFFnn.roundtrip sets)"])
+def x1f_encode_registered(h):
+    sid = h.int("sub_message_id", 0, 0xFFFF)
+    s = h.int("sub_size", 0, 0xFFFF - 2)
+    sub = _sub_message(h, sid)
+    payload = h.abytes("sub_payload", ln=s)
+    if not h.symbolic:
+        h.assume(len(payload) == s, "stub contract: encode returns exactly size() bytes")
+    calls = []
+
+    def size(m):
+        calls.append(("size", m))
+        return s
+
+    def encode(hdr, m):
+        calls.append(("encode", hdr, m))
+        return payload
+
+    enc = h.new(X1F + ":ExtendedMessageEncoder", {sid: _Stub(size=size, encode=encode)})
+    msg = h.new(X1F + ":ExtendedMessage", sub_message=sub)
+    rs = h.method(enc, "size", msg)
+    h.oblige("size() does not raise for a registered sub-message", rs.ok)
+    if not rs.ok:
+        return
+    h.oblige("announced size = 2 (sub-message id) + size of the sub-message", h.eq(rs.value, 2 + s))
+    del calls[:]
+    r = h.method(enc, "encode", at5_header(h, 0x1F, rs.value, to=0x90), msg)
+    h.oblige("encode() does not raise for a registered sub-message", r.ok)
+    if not r.ok:
+        return
+    out = r.value
+    h.oblige("announced size == number of payload bytes produced", h.eq(h.length(out), rs.value))
+    head = _first_bytes(h, out, 2)
+    h.oblige("the first two bytes are the sub-message id, high byte first",
+             And(head[0] == sid // 256, head[1] == sid % 256) if head is not None else False)
+    h.oblige("the rest is exactly what the sub-encoder produced", _tail_is(h, out, 2, payload))
+    encs = [c for c in calls if c[0] == "encode"]
+    h.oblige("the sub-encoder is asked to encode exactly once, the sub-message itself",
+             len(encs) == 1 and encs[0][2] is sub)
+    if len(encs) == 1:
+        sh = encs[0][1]
+        h.oblige("its sub-header carries the sub-message id and the announced sub-message length",
+                 And(h.attr(sh, "message_id") == sid, h.attr(sh, "message_length") == s))
+    h.oblige("every size() question is about the sub-message itself", all(c[1] is sub for c in calls if c[0] == "size"))
+    h.cover("x1F encode")
+
+
+@oset("at5.x1F.encode-unregistered", ["C03", "C17"], WRAP_FNS[:3])
+def x1f_encode_unregistered(h):
+    """A sub-message without a registered encoder: NotImplementedError from size() and encode() (the send
+    path reports it as an encoding error; nothing is written)."""
+    sid = h.int("sub_message_id", 0, 0xFFFF)
+    rid = h.int("registered_id", 0, 0xFFFF)
+    h.assume(sid != rid, "the message's id is not the registered one")
+    empty = h.choice("encoder_map", ["empty", "other id registered"]) == "empty"
+
+    def unreachable(*a):
+        h.fail("the encoder registered for another id is never called")
+        return 0
+
+    enc = h.new(X1F + ":ExtendedMessageEncoder", {} if empty else {rid: _Stub(size=unreachable, encode=unreachable)})
+    msg = h.new(X1F + ":ExtendedMessage", sub_message=_sub_message(h, sid))
+    h.oblige("size() raises NotImplementedError", h.method(enc, "size", msg).raised("NotImplementedError"))
+    h.oblige("encode() raises NotImplementedError",
+             h.method(enc, "encode", at5_header(h, 0x1F, 2, to=0x90), msg).raised("NotImplementedError"))
+
+
+@oset("at5.x1F.decode", ["C03", "C05", "C17"], WRAP_FNS[3:],
+      assumptions=["len(payload) == header.message_length (the receive path reads exactly message_length payload bytes)",
+                   "sub-decoder contract: returns MessageDecodeResult(message, remaining) (established per sub-codec by the "
+                   "at5.xFFnn sets)"])
+def x1f_decode(h):
+    """Arbitrary payload of arbitrary length; one id registered (symbolic), so both the registered and the
+    unregistered case are covered for every wire id."""
+    buf, mlen = _payload(h, max_len=0xFFFF)
+    rid = h.int("registered_id", 0, 0xFFFF)
+    sub = _sub_message(h, h.int("decoded_sub_id", 0, 0xFFFF))
+    left = h.bytes("sub_remaining", h.choice("sub_remaining_length", [0, 1]))
+    calls = []
+
+    def decode(b, sh):
+        calls.append((b, sh))
+        return h.new(COMMS + ":MessageDecodeResult", message=sub, remaining=left)
+
+    dec = h.new(X1F + ":ExtendedMessageDecoder", {rid: _Stub(decode=decode)})
+    r = h.method(dec, "decode", buf, at5_header(h, 0x1F, mlen, to=0xB0, frm=0x90))
+    h.oblige("returns or rejects", only_rejects(h, r))
+    if not r.ok:
+        h.oblige("rejected only when the two id bytes are missing", mlen < 2)
+        return
+    h.oblige("accepted => the two id bytes are present", mlen >= 2)
+    wire_id = _byte_at(h, buf, 0) * 256 + _byte_at(h, buf, 1)
+    m = h.attr(r.value, "message")
+    h.oblige("result is an ExtendedMessage", h.isinstance(m, X1F + ":ExtendedMessage"))
+    inner = h.attr(m, "sub_message")
+    if calls:
+        h.oblige("the registered sub-decoder is used only for its own id, once", And(wire_id == rid, len(calls) == 1))
+        b, sh = calls[0]
+        h.oblige("it is handed the payload after the two id bytes", _is_view(h, b, buf, 2, mlen - 2))
+        h.oblige("its sub-header: message_id = wire id, message_length = header.message_length - 2",
+                 And(h.attr(sh, "message_id") == wire_id, h.attr(sh, "message_length") == mlen - 2))
+        h.oblige("the sub-decoder's message is wrapped unchanged", inner is sub)
+        h.oblige("the sub-decoder's remaining bytes are passed on unchanged", h.attr(r.value, "remaining") is left)
+        h.cover("x1F decode registered")
+    else:
+        h.oblige("an id without a registered decoder (and only such an id) goes to the unsupported decoder", wire_id != rid)
+        ok = h.isinstance(inner, COMMS + ":UnsupportedMessage")
+        h.oblige("unknown sub-type => UnsupportedMessage", ok)
+        if ok:
+            h.oblige("unsupported_id = the wire id", h.attr(inner, "unsupported_id") == wire_id)
+            h.oblige("raw_data = the payload after the id bytes, unchanged", _is_view(h, h.attr(inner, "raw_data"), buf, 2, mlen - 2))
+            h.oblige("nothing left over", h.length(h.attr(r.value, "remaining")) == 0)
+        h.cover("x1F decode unsupported")
+
+
+@oset("at5.x1F.unsupported-decoder", ["C17"], WRAP_FNS[5:])
+def x1f_unsupported(h):
+    """UnsupportedExtendedDecoder on its own: any buffer at least as long as the announced length."""
+    buf = h.abytes("payload")
+    mlen = h.int("message_length", 0, 0xFFFF)
+    h.assume(h.length(buf) >= mlen, "the buffer holds at least the announced sub-message")
+    sid = h.int("sub_message_id", 0, 0xFFFF)
+    dec = h.new(X1F + ":UnsupportedExtendedDecoder")
+    r = h.method(dec, "decode", buf, at5_ext_subheader(h, sid, mlen))
+    h.oblige("never raises", r.ok)
+    if not r.ok:
+        return
+    m = h.attr(r.value, "message")
+    ok = h.isinstance(m, COMMS + ":UnsupportedMessage")
+    h.oblige("result is an UnsupportedMessage", ok)
+    if not ok:
+        return
+    h.oblige("unsupported_id = header.message_id (also its message_id)",
+             And(h.attr(m, "unsupported_id") == sid, h.prop(m, "message_id").value == sid))
+    h.oblige("raw_data = the first message_length bytes, unchanged", _is_view(h, h.attr(m, "raw_data"), buf, 0, mlen))
+    h.oblige("remaining = what follows", _is_view(h, h.attr(r.value, "remaining"), buf, mlen, h.length(buf) - mlen))
+
+
+# ---- glue: the registry wires each sub-codec under the id its messages carry ----------------------
+
+REGISTRY = AT5 + "registry"
+SUB_CODECS = {
+    ID_ERR: (XERR, "AcErrorInformationEncoder", "AcErrorInformationDecoder"),
+    ID_ABILITY: (XABL, "AcAbilityEncoder", "AcAbilityDecoder"),
+    ID_ZONE_NAMES: (XZN, "ZoneNamesEncoder", "ZoneNamesDecoder"),
+    ID_VERSION: (XVER, "ConsoleVersionEncoder", "ConsoleVersionDecoder"),
+    ID_QUICK_TIMER: (XQT, "QuickTimerEncoder", "QuickTimerDecoder"),
+}
+
+
+def _sample_messages(h):
+    """One instance of every message / request class of the five sub-codecs (only message_id is used)."""
+    td = h.new("datetime:timedelta", hours=1, minutes=2)
+    return {
+        ID_ERR: [h.new(XERR + ":AcErrorInformationMessage", ac_number=0, error_info=None),
+                 h.new(XERR + ":AcErrorInformationRequest", ac_number=0)],
+        ID_ABILITY: [h.new(XABL + ":AcAbilityMessage", ac_abilities=[]), h.new(XABL + ":AcAbilityRequest", ac_number="ALL")],
+        ID_ZONE_NAMES: [h.new(XZN + ":ZoneNamesMessage", zone_names={}), h.new(XZN + ":ZoneNamesRequest", zone_number="ALL")],
+        ID_VERSION: [h.new(XVER + ":ConsoleVersionMessage", update_available=False, versions=["1.0.3"]),
+                     h.new(XVER + ":ConsoleVersionRequest")],
+        ID_QUICK_TIMER: [h.new(XQT + ":QuickTimerMessage", ac_number=0, timer_type=h.member(XQT + ":TimerType", "ON_TIMER"), duration=td)],
+    }
+
+
+@oset("at5.x1F.registry-wiring", ["C03", "C17"], [REGISTRY + ":<module>"], kind="frame")
+def x1f_registry_wiring(h):
+    """The parametric wrapper proof composes with the per-codec sets only if the registry registers every
+    sub-codec under exactly the id its messages report (and the vendor document assigns)."""
+    emap = h.attr(h.get(REGISTRY + ":_extended_encoder"), "_encoder_map")
+    dmap = h.attr(h.get(REGISTRY + ":_extended_decoder"), "_decoder_map")
+    h.oblige("encoders are registered for exactly 0xFF10, 0xFF11, 0xFF13, 0xFF30, 0xFF49", sorted(emap.keys()) == sorted(SUB_CODECS))
+    h.oblige("decoders are registered for exactly 0xFF10, 0xFF11, 0xFF13, 0xFF30, 0xFF49", sorted(dmap.keys()) == sorted(SUB_CODECS))
+    msgs = _sample_messages(h)
+    for sid, (mod, enc, dec) in SUB_CODECS.items():
+        h.oblige(f"0x{sid:04X}: the registered encoder / decoder are this sub-message's",
+                 sid in emap and sid in dmap and h.isinstance(emap[sid], mod + ":" + enc) and h.isinstance(dmap[sid], mod + ":" + dec))
+        for m in msgs[sid]:
+            p = h.prop(m, "message_id")
+            h.oblige(f"0x{sid:04X}: every message / request class reports this id", p.ok and h.eq(p.value, sid) is True)
+    reg = h.get(REGISTRY + ":INSTANCE")
+    e = h.method(reg, "get_encoder", 0x1F)
+    d = h.method(reg, "get_decoder", 0x1F)
+    h.oblige("message id 0x1F is served by the extended encoder / decoder",
+             e.ok and d.ok and e.value is h.get(REGISTRY + ":_extended_encoder") and d.value is h.get(REGISTRY + ":_extended_decoder"))
+    ext = h.new(X1F + ":ExtendedMessage", sub_message=msgs[ID_ERR][0])
+    p = h.prop(ext, "message_id")
+    h.oblige("an ExtendedMessage reports message id 0x1F", p.ok and h.eq(p.value, 0x1F) is True)
+
+
+@oset("at5.x1F.roundtrip.quick-timer-nested", ["C03"], WRAP_FNS[:5] + QT_FNS, assumptions=QT_ASSUME)
+def x1f_roundtrip_nested(h):
+    """The composition, executed once on real parts: a quick timer inside the 0x1F wrapper through the
+    registry's encoder / decoder (all field values symbolic)."""
+    sub = h.new(XQT + ":QuickTimerMessage", ac_number=h.int("ac_number", 0, 255),
+                timer_type=h.enum("timer_type", XQT + ":TimerType"),
+                duration=h.new("datetime:timedelta", hours=h.int("hours", 0, 23), minutes=h.int("minutes", 0, 59)))
+    msg = h.new(X1F + ":ExtendedMessage", sub_message=sub)
+    enc = h.get(REGISTRY + ":_extended_encoder")
+    dec = h.get(REGISTRY + ":_extended_decoder")
+    s = h.method(enc, "size", msg)
+    h.oblige("size() does not raise", s.ok)
+    if not s.ok:
+        return
+    h.oblige("announced size = 2 + 4", h.eq(s.value, 6))
+    hdr = at5_header(h, 0x1F, s.value, to=0x90)
+    e = h.method(enc, "encode", hdr, msg)
+    h.oblige("encode() does not raise", e.ok)
+    if not e.ok:
+        return
+    b = h.items(e.value)
+    h.oblige("announced size == number of payload bytes produced", len(b) == 6)
+    h.oblige("data starts with 0xFF 0x49", And(b[0] == 0xFF, b[1] == 0x49) if len(b) >= 2 else False)
+    d = h.method(dec, "decode", e.value, hdr)
+    h.oblige("decode() accepts the encoder's output", d.ok)
+    if not d.ok:
+        return
+    h.oblige("decoded message equals the original", h.eq(h.attr(d.value, "message"), msg))
+    h.oblige("nothing left over", h.length(h.attr(d.value, "remaining")) == 0)
+    h.cover("nested roundtrip completes")
